@@ -304,3 +304,20 @@ Proof. exact truediv_spec. Qed.
 End Operators.
 Print Assumptions op_rsub_scalar.
 Print Assumptions op_add_scalar.
+
+(* T2  x **= p  for every non-negative integer p (LinearSpaceElement.__ipow__ on a tensor /
+   discretized space: p = 0 assigns one(); p even squares and recurses on p // 2; p odd
+   multiplies a copy p - 2 times and finishes with one product): the entries are the p-th
+   powers of the initial entries, whatever the temporaries held; nothing but x and the two
+   temporaries changes.  By induction on the recursion depth and on the loop. *)
+Theorem op_ipow :
+  forall (T : Type) (N : Num T) (F : NumField T)
+         (flg : nat -> bool * bool) (bdtf : nat -> bool) (icast : T -> T)
+         (fuel p : nat) (x t o : nat) (s : store T),
+  (p < fuel)%nat -> t <> x -> o <> x -> length (s o) = length (s x) ->
+  exists s', w_ipow flg bdtf icast fuel (fun a b => w_copy_leaf (leaf_id a) (leaf_id b))
+                    (SLeaf true) (Leaf x) p (Leaf t) (Leaf o) s = Ok s'
+    /\ s' x = vpow (s x) p
+    /\ forall j, j <> x -> j <> t -> j <> o -> s' j = s j.
+Proof. exact @ipow_spec. Qed.
+Print Assumptions op_ipow.
